@@ -505,6 +505,45 @@ theorem mem_insertPath {p x : Path} {l : List Path} : x ∈ insertPath p l ↔ x
 theorem mem_sortPaths {x : Path} {l : List Path} : x ∈ sortPaths l ↔ x ∈ l := by
   fun_induction sortPaths l <;> grind [mem_insertPath]
 
+theorem mem_dedupPaths {x : Path} {l : List Path} : x ∈ dedupPaths l ↔ x ∈ l := by
+  fun_induction dedupPaths l <;> grind
+
+theorem nodup_dedupPaths (l : List Path) : (dedupPaths l).Nodup := by
+  fun_induction dedupPaths l <;> grind [mem_dedupPaths]
+
+theorem nodup_insertPath {p : Path} {l : List Path} (hp : p ∉ l) (hl : l.Nodup) : (insertPath p l).Nodup := by
+  fun_induction insertPath p l <;> grind [mem_insertPath]
+
+theorem nodup_sortPaths {l : List Path} (hl : l.Nodup) : (sortPaths l).Nodup := by
+  fun_induction sortPaths l with
+  | case1 => simp
+  | case2 p r ih =>
+    have := List.nodup_cons.mp hl
+    exact nodup_insertPath (by rw [mem_sortPaths]; exact this.1) (ih this.2)
+
+theorem holdBack_perm (old : Tree) (held : Option DiffEntry) (es : List DiffEntry) :
+    (holdBack old held es).Perm (held.toList ++ es) := by
+  fun_induction holdBack old held es with
+  | case1 held => simp
+  | case2 e es hh ih => simpa using ih
+  | case3 e es hh ih => simpa using ih
+  | case4 h e es hp ih =>
+    have : (e :: holdBack old (some h) es).Perm (e :: h :: es) := List.Perm.cons e (by simpa using ih)
+    exact this.trans (List.Perm.swap h e es)
+  | case5 h e es hp hh ih => simpa using ih
+  | case6 h e es hp hh ih => simpa using ih
+
+theorem nodup_diffFs_paths (old new : Tree) (m : Path → Bool) : ((diffFs old new m).map (·.path)).Nodup := by
+  have h1 : ((diffSorted old new m).map (·.path)).Nodup := by
+    simp only [diffSorted, List.map_map]
+    have : ((fun e : DiffEntry => e.path) ∘ fun p => ({ path := p, before := get old p, after := get new p } : DiffEntry)) = id := by
+      funext p; rfl
+    rw [this, List.map_id]
+    exact List.filter_sublist.nodup (nodup_sortPaths (nodup_dedupPaths _))
+  have hp : (diffFs old new m).Perm (diffSorted old new m) := by
+    simpa [diffFs] using holdBack_perm old none (diffSorted old new m)
+  exact (hp.map _).nodup_iff.mpr h1
+
 theorem mem_holdBack {old : Tree} {x : DiffEntry} :
     ∀ {held : Option DiffEntry} {es : List DiffEntry}, x ∈ holdBack old held es ↔ x ∈ held.toList ∨ x ∈ es := by
   intro held es
@@ -514,7 +553,7 @@ theorem mem_diffSorted {old new : Tree} {m : Path → Bool} {e : DiffEntry} :
     e ∈ diffSorted old new m ↔
       (e.path ∈ old.map (·.1) ∨ e.path ∈ new.map (·.1)) ∧ m e.path = true ∧ get old e.path ≠ get new e.path ∧
       e.before = get old e.path ∧ e.after = get new e.path := by
-  simp only [diffSorted, List.mem_map, List.mem_filter, mem_sortPaths, List.mem_append]
+  simp only [diffSorted, List.mem_map, List.mem_filter, mem_sortPaths, mem_dedupPaths, List.mem_append]
   constructor
   · rintro ⟨p, ⟨hp, hm⟩, rfl⟩
     simp only [Bool.and_eq_true, decide_eq_true_eq] at hm
@@ -529,5 +568,64 @@ theorem mem_diffFs {old new : Tree} {m : Path → Bool} {e : DiffEntry} :
       e.before = get old e.path ∧ e.after = get new e.path := by
   simp [diffFs, mem_holdBack, mem_diffSorted]
 
+
+
+/-! ### the outcome of every entry -/
+
+theorem log_mono {l : Path × Action} : ∀ (es : List DiffEntry) (u : UState), l ∈ u.log → l ∈ (steps u es).log := by
+  intro es
+  induction es with
+  | nil => intro u h; exact h
+  | cons e es ih =>
+    intro u h
+    simp only [steps]
+    apply ih
+    obtain ⟨act, hl⟩ := step_log u e
+    rw [hl]; exact List.mem_cons_of_mem _ h
+
+
+theorem materialize_ne_dir (v : TreeValue) : materialize v ≠ .dir := by
+  cases v <;> simp [materialize]
+
+/-- every diff entry (paths pairwise distinct) ends in one of three ways: its new value is on disk
+at the end; it was a removal and no file or symlink is left at the path; or it was skipped -/
+theorem steps_entry_outcome {e : DiffEntry} :
+    ∀ (es : List DiffEntry) (u : UState), (es.map (·.path)).Nodup → e ∈ es →
+      (∃ v, e.after = some v ∧ get (steps u es).disk e.path = some (materialize v)) ∨
+      (e.after = none ∧ ∀ x, get (steps u es).disk e.path = some x → x = .dir) ∨
+      (e.path, Action.skipParent) ∈ (steps u es).log ∨ (e.path, Action.skipExists) ∈ (steps u es).log := by
+  intro es
+  induction es with
+  | nil => intro u _ h; simp at h
+  | cons e' es ih =>
+    intro u hnd he
+    simp only [List.map_cons, List.nodup_cons] at hnd
+    simp only [steps]
+    rcases List.mem_cons.mp he with h | h
+    · subst h
+      have hne : ∀ e'' ∈ es, e''.path ≠ e.path := by
+        intro e'' he'' heq
+        exact hnd.1 (List.mem_map.mpr ⟨e'', he'', heq⟩)
+      obtain ⟨act, hl⟩ := step_log u e
+      cases act with
+      | skipParent => right; right; left; exact log_mono es _ (by rw [hl]; exact List.mem_cons_self ..)
+      | skipExists => right; right; right; exact log_mono es _ (by rw [hl]; exact List.mem_cons_self ..)
+      | removed =>
+        right; left
+        obtain ⟨_, _, h3⟩ := step_acts_only_below_dirs hl (Or.inl rfl)
+        obtain ⟨ha, hg⟩ := h3 rfl
+        refine ⟨ha, fun x hx => ?_⟩
+        cases hd : decide (x = .dir) with
+        | true => exact of_decide_eq_true hd
+        | false =>
+          have := steps_no_new_leaf (of_decide_eq_false hd) es (step u e) hne hx
+          rw [hg] at this; simp at this
+      | written x =>
+        left
+        obtain ⟨_, h2, _⟩ := step_acts_only_below_dirs hl (Or.inr ⟨x, rfl⟩)
+        obtain ⟨⟨v, hv, hx⟩, hg, _⟩ := h2 x rfl
+        subst hx
+        exact ⟨v, hv, steps_leaf_preserved (materialize_ne_dir v) es (step u e) hg hne⟩
+    · exact ih (step u e') hnd.2 h
 
 end JjModel.WorkingCopy
